@@ -587,7 +587,8 @@ impl Connection {
         let result;
         {
             let online = self.state.assert_online();
-            if buffer.len() > MAX_PAYLOAD {
+            // The chunk header only has `CHUNK_SIZE_BITS` bits for the size.
+            if buffer.len() > MAX_PAYLOAD || buffer.len() >> protocol::CHUNK_SIZE_BITS != 0 {
                 return Err(Error::TooLongData);
             }
             if !online.packet.can_fit_chunk(buffer, vital) {
